@@ -199,6 +199,13 @@ func (c *VCtx) globalVal(g *ssa.Global) Val {
 			c.declSet["nn:"+name] = true
 			c.facts0(Not(Eq(t, Null)))
 		}
+		if !c.declSet["al:"+name] {
+			// package-level values exist before the function starts
+			c.declSet["al:"+name] = true
+			a0 := c.declare(c.heapName("G:alloc", 0), ArrSort(SRef, SBool))
+			c.heapSorts["G:alloc"] = ArrSort(SRef, SBool)
+			c.facts0(Or(Eq(t, Null), Select(a0, t)))
+		}
 	}
 	c.eng.assume("package-level variables (error sentinels such as context.Canceled, io.EOF) are immutable constants")
 	return c.typed(t, el)
